@@ -319,6 +319,12 @@ func init() {
 		// with CheckRedirect == nil the client follows 3xx answers itself and the caller never
 		// sees them; a relaying proxy therefore needs a client with a redirect policy
 		x.oblige(fr, st, "pre", "http.Client.Do/redirect-policy@"+x.siteLabel(pc.e), has, pc.e)
+		// Client.Timeout "includes ... reading the response body": a relaying client with an overall
+		// timeout cuts every body that takes longer to arrive (deadlines belong on the request context)
+		if to, ok := x.specFieldOf(st, c, "Timeout").(IntV); ok {
+			x.oblige(fr, st, "pre", "http.Client.Do/no-body-timeout@"+x.siteLabel(pc.e), Eq(to.T, IntLit(0)), pc.e)
+			x.Obls[len(x.Obls)-1].Tag = "C08,C01"
+		}
 		x.Obls[len(x.Obls)-1].Tag = "C08"
 		x.noBlock(fr, st, pc.e, "http-do")
 		req, _ := pc.args[0].(PtrV)
